@@ -246,7 +246,7 @@ def make_oracle(cls):
         nskip = 0
         for i, setting in enumerate(case["settings"]):
             if i > 0:
-                tc.apply(t, setting["p"])
+                tc.apply(t, setting["p"], case.get("how", "by-name"))
             try:
                 ident, pts, _ = derivative_check(t, case, setting, labels)
                 monotone_check(t, case, setting, case["k"][i], labels)
